@@ -3,11 +3,13 @@
    hidden by the VIEW.  The same module with Weaken # "none" (spec/neg) must violate Authentic or StoreTyped. *)
 EXTENDS Deploy, TLC
 MCView == <<gen, store, via, blobs, net, issued, accepted, clock>>
-Invs == TypeOK /\ Authentic /\ EvilIsEvil /\ StoreTyped /\ ClosedChannels /\ ViaComplete
+Invs == TypeOK /\ Authentic /\ Addressed /\ EvilIsEvil /\ StoreTyped /\ ClosedChannels /\ ViaComplete
 \* non-vacuity: these must be reachable (checked as invariants that TLC must violate, spec/neg/Deploy_reach-*.cfg)
 NeverAccepts == accepted = {}
 NeverAcceptsEvil == \A a \in accepted : a.key # Evil
 \* some token outlives its expiry
 NeverExpired == \A k \in 1..Len(net) : net[k].exp >= clock
+\* a service is offered a token that is not addressed to it
+NeverMisaddressed == \A k \in 1..Len(net) : net[k].aud \in Services
 NeverRejectsAfterRefoot == ~(\E k \in 1..Len(net) : net[k].fks # net[k].bks)
 =============================================================================
